@@ -1482,7 +1482,7 @@ def floor_plans(base_seed, tier='quick'):
     # sizes beyond library / block thresholds
     for j, kind in enumerate(['model', 'grid', 'cli', 'grid']):
         plans.append(big_plan(base_seed * 1000003 + 960000 + j, tier, kind, floor=True))
-    plans += sibling_floor_plans(base_seed, tier)
+    plans += sibling_floor_plans(base_seed, tier, reps=2 if tier == 'quick' else 6)
     return plans
 
 
